@@ -24,14 +24,17 @@ CLAIMS = {
 
 CLAIMS["C01"] = dict(
     category="other",
-    text="Static decision of one necessary clause: the closed-path contribution table (IsContributingClosed) is extracted by abstract "
-         "interpretation of its AST over a finite, verified-uniform partition of (fill rule, clip type, path type, wind_cnt, wind_cnt2) and "
-         "equals the set-algebra definition on every reachable cell (1300 cells per configuration, exhaustive). A wrong reachable cell is a wrong "
-         "region for some input in general position; the converse (the behaviour of C01) is NOT decided.",
-    note="Assumes the code's stated invariants for wind_cnt / wind_cnt2. Winding bookkeeping, AEL order, intersections, joins, output assembly "
-         "and tolerances are outside the clause.",
-    technique="static analysis: abstract interpretation of the decision function's AST over a finite partition, compared with a definitional oracle",
-    design="§3 E3, §4 C01", engine="E3")
+    text="Static decision of the decision logic of the sweep on closed paths, by abstract interpretation of the AST over finite, verified-uniform "
+         "partitions against oracles derived from the definition of fill rules and set operations: (1) the contribution table "
+         "IsContributingClosed (1300 reachable cells); (2) the winding-count update when two edges cross (14348 cells) and the count given to an "
+         "inserted edge; (3) IntersectEdges as a whole: from every consistent state the contour calls it makes leave exactly the edges on the "
+         "solution boundary carrying output (11076 cells). A wrong reachable cell is a wrong region for some input in general position; the "
+         "converse (the behaviour of C01) is NOT decided.",
+    note="Assumes the code's stated invariants for wind_cnt / wind_cnt2 and that AEL neighbours are the geometric neighbours. AEL ordering, "
+         "intersection-point computation, joins, horizontals, output assembly and tolerances are outside the clause.",
+    technique="static analysis: abstract interpretation of decision code (AST) over finite partitions with logged-comparison uniformity proof, "
+              "compared with definitional oracles",
+    design="§3 E3, §4 C01, §9", engine="E3")
 CLAIMS["C11"] = dict(
     category="other",
     text="Static error-discipline rules over every public entry in builds with and without exceptions: validate-before-use of every precision "
